@@ -517,6 +517,26 @@ func C03(r *core.Run) {
 	for i := 0; i < nbig; i++ {
 		list = append(list, genResp(rng, fmt.Sprintf("s%dbig%d", r.Seed, i), []int{200, 206, 404, 500}[i%4], true))
 	}
+	// downloads beyond any round limit an intermediary might put on message bodies (32 MiB + 1, thorough also 64 MiB + 7)
+	for i, n := range []int{32<<20 + 1, 64<<20 + 7}[:r.Pick(1, 2)] {
+		hs := genResp(rng, fmt.Sprintf("s%dhuge%d", r.Seed, i), 200, true)
+		for k := 0; hs.Method == "HEAD"; k++ {
+			hs = genResp(rng, fmt.Sprintf("s%dhuge%dx%d", r.Seed, i, k), 200, true)
+		}
+		hs.BodyLen = n
+		hs.body = tokBytes(hs.Tok, "c03body", n)
+		hs.Chunks = nil
+		for rest := n; rest > 0; {
+			k := 1 << 20
+			if k > rest {
+				k = rest
+			}
+			hs.Chunks = append(hs.Chunks, k)
+			rest -= k
+		}
+		hs.Class += "|huge"
+		list = append(list, hs)
+	}
 	rng.Shuffle(len(list), func(i, j int) { list[i], list[j] = list[j], list[i] })
 	mu.Lock()
 	for _, s := range list {
